@@ -15,7 +15,7 @@ pub fn def() -> PropDef {
         job_level,
         run_job,
         replay,
-        rule: "configs: ALL 10^4 assignments of a 10-entry fragment menu {key, output chord, (multi mod key), (multi mod _), XX, _, use-defsrc, (layer-while-held other), (layer-switch other), (multi (release-key lctl) (release-layer other))} to 2 layers x 2 keys (defcfg variant rotated over {layer-stack,to-base-layer} x delegate-to-first-layer {no,yes} in quick and in thorough levels 0 and 2; all 4 variants in thorough level 1) + curated 3-4 layer configs (stacked held layers, transparent chains, nested _ in multi, release-key/layer across layers) x all 4 variants. Unmapped-key variants: a further key that is NOT in defsrc with process-unmapped-keys yes (must behave as mapped to itself on every layer) and with block-unmapped-keys yes (must produce nothing in every layer state): every sixth 2x2 config in quick, all in thorough, all curated configs (one step less deep). Histories: ALL physically consistent histories of D steps over {press/release of the mapped keys, tick 1, tick 2} (gaps 0,1,2), then released and settled. Oracle: reference model LayeredKeymap (FIFO queue, one event per tick; press = search held layers newest to oldest, default layer, optional first layer, defsrc, continuing below a nested _; release removes what that coordinate put down; output = ordered diff of the key list per tick) compared with the real output trace event by event with tick stamps. states = distinct (real digest) ; traces_validated = executions compared.",
+        rule: "configs: ALL 10^4 assignments of a 10-entry fragment menu {key, output chord, (multi mod key), (multi mod _), XX, _, use-defsrc, (layer-while-held other), (layer-switch other), (multi (release-key lctl) (release-layer other))} to 2 layers x 2 keys (defcfg variant rotated over {layer-stack,to-base-layer} x delegate-to-first-layer {no,yes} in quick and in thorough levels 0 and 2; all 4 variants in thorough level 1) + curated 3-4 layer configs (stacked held layers, transparent chains, nested _ in multi, nested multi (inner items act where the inner multi is written), release-key/layer across layers) x all 4 variants. Unmapped-key variants: a further key that is NOT in defsrc with process-unmapped-keys yes (must behave as mapped to itself on every layer) and with block-unmapped-keys yes (must produce nothing in every layer state): every sixth 2x2 config in quick, all in thorough, all curated configs (one step less deep). Histories: ALL physically consistent histories of D steps over {press/release of the mapped keys, tick 1, tick 2} (gaps 0,1,2), then released and settled. Oracle: reference model LayeredKeymap (FIFO queue, one event per tick; press = search held layers newest to oldest, default layer, optional first layer, defsrc, continuing below a nested _; release removes what that coordinate put down; output = ordered diff of the key list per tick) compared with the real output trace event by event with tick stamps. states = distinct (real digest) ; traces_validated = executions compared.",
         assumptions: &[
             "fragment only: plain keys, output chords, multi, XX, _, use-defsrc, layer-while-held, layer-switch, release-key/layer",
             "fewer than 32 pending events (no queue overflow in this check)",
@@ -265,6 +265,11 @@ fn curated() -> Vec<CfgSpec> {
         ("release-layer-across", vec![vec![lwh(1), lwh(2), m(1, 0, 3)], vec![tr(), m(9, 1, 3), m(0, 1, 3)], vec![m(9, 2, 3), tr(), m(6, 2, 3)]]),
         ("four-layers", vec![vec![lwh(1), lwh(2), m(0, 0, 4)], vec![lwh(3), tr(), tr()], vec![tr(), lwh(3), m(3, 2, 4)], vec![tr(), tr(), m(3, 3, 4)]]),
         ("nested-trans-multi", vec![vec![lwh(1), m(3, 0, 2), m(2, 0, 2)], vec![tr(), m(3, 1, 2), m(3, 1, 2)]]),
+        // nested multi (the form an alias holding a multi takes): items act in WRITTEN order, the inner items where the inner multi stands
+        ("nested-multi", vec![
+            vec![lwh(1), ("(multi (multi lctl lsft) x)".to_string(), Act::Multi(vec![Act::Key("LCtrl"), Act::Key("LShift"), Act::Key("X")])), ("(multi lalt (multi lctl x) y)".to_string(), Act::Multi(vec![Act::Key("LAlt"), Act::Key("LCtrl"), Act::Key("X"), Act::Key("Y")]))],
+            vec![tr(), ("(multi (multi _ lsft) lalt)".to_string(), Act::Multi(vec![Act::Trans, Act::Key("LShift"), Act::Key("LAlt")])), ("(multi (multi lsft (multi _ z)) w)".to_string(), Act::Multi(vec![Act::Key("LShift"), Act::Trans, Act::Key("Z"), Act::Key("W")]))],
+        ]),
         ("switch-delegate", vec![vec![lsw(1), m(0, 0, 3), m(2, 0, 3)], vec![lsw(2), tr(), m(3, 1, 3)], vec![lsw(0), tr(), tr()]]),
         ("chords-then-keys", vec![vec![m(1, 0, 2), m(1, 1, 2), lwh(1)], vec![m(1, 1, 2), tr(), tr()]]),
     ];
